@@ -33,6 +33,8 @@ type daemon struct {
 	done      chan struct{}
 	waitErr   error
 	exited    int32
+	lcOff     int64 // outputLineCount: bytes of the events file counted so far
+	lcLines   int   // ... and the newlines among them
 }
 
 type daemonOpts struct {
@@ -204,6 +206,29 @@ func classifyDaemonDump(dump string) (bool, string) {
 func (d *daemon) outputRaw() []byte {
 	b, _ := os.ReadFile(d.outPath)
 	return b
+}
+
+// outputLineCount counts the lines of the events file incrementally (only what
+// was appended since the last call is read). Single caller.
+func (d *daemon) outputLineCount() int {
+	f, err := os.Open(d.outPath)
+	if err != nil {
+		return d.lcLines
+	}
+	defer f.Close()
+	if _, err := f.Seek(d.lcOff, io.SeekStart); err != nil {
+		return d.lcLines
+	}
+	buf := make([]byte, 1<<20)
+	for {
+		n, err := f.Read(buf)
+		d.lcOff += int64(n)
+		d.lcLines += bytes.Count(buf[:n], []byte("\n"))
+		if err != nil || n == 0 {
+			break
+		}
+	}
+	return d.lcLines
 }
 
 // waitForOutput polls the events file until pred holds for its content.
